@@ -184,6 +184,23 @@ def _ops():
         sqlparse.format('select foo from bar', keyword_case='upper')
         lx.default_initialization()
 
+    def second_lexer():
+        # a caller's own Lexer objects (and a subclass), configured differently, next to the default one
+        l2 = lexer.Lexer()
+        l2.clear()
+        l3 = lexer.Lexer()
+        l3.default_initialization()
+        l3.add_keywords({'FOO': T.Keyword, 'MAP': T.Name.Builtin, 'SELECT': T.Name})
+        l3.set_SQL_REGEX(keywords.SQL_REGEX[:20])
+
+        class MyLexer(lexer.Lexer):
+            pass
+        l4 = MyLexer()
+        l4.default_initialization()
+        l4.clear()
+        list(l3.get_tokens('select foo, map from bar'))
+        held.extend([l2, l3, l4])
+
     def cli_main():
         from sqlparse import cli
         old_out, old_in = sys.stdout, sys.stdin
@@ -205,7 +222,7 @@ def _ops():
         ('format-aligned', format_aligned), ('format-python', format_python), ('format-invalid', format_invalid),
         ('format-operators-ws', format_operators_ws), ('format-strip-comments-ws', format_strip_comments_ws),
         ('stream-abandoned', stream_abandoned),
-        ('stream-suspended', stream_suspended), ('probe-texts-abandoned', probe_texts_abandoned), ('reconfigure-and-reset', reconfigure_and_reset),
+        ('stream-suspended', stream_suspended), ('probe-texts-abandoned', probe_texts_abandoned), ('reconfigure-and-reset', reconfigure_and_reset), ('second-lexer', second_lexer),
         ('cli-main', cli_main), ('many-statements', many_statements)])
 
 
@@ -295,6 +312,47 @@ def histories_part(tier, seed, ref):
             'state_examples': {d: list(h) for d, h in list(states.items())[:6]}}, viols
 
 
+# ============================================================== E8 lazily consumed streams
+
+def lazy_part(tier):
+    """every pair (thorough: every triple) of lazy entry points and complete calls, every interleaving of their
+    next() steps; each must yield what it yields alone"""
+    from vlib import lazytasks
+    menu = lazytasks.tasks()
+    k = len(menu)
+    combos = list(itertools.combinations_with_replacement(range(k), 2))
+    light = [0, 2, 3, 5, 7]
+    if tier == 'quick':
+        combos += list(itertools.combinations_with_replacement(light, 3))
+    else:
+        combos += list(itertools.combinations_with_replacement(range(k), 3))
+
+    def work(chunk):
+        from vlib import gensched, lazytasks as lt
+        m = lt.tasks()
+        refs = [gensched.alone(f, n) for _, f, n in m]
+        out = []
+        for combo in chunk:
+            st = gensched.explore([m[i][1] for i in combo], [m[i][2] for i in combo], [refs[i] for i in combo])
+            out.append((combo, st))
+        return out
+    res = [x for ch in core.pmap(work, core.chunked(combos, core.NPROC * 4)) for x in ch]
+    viols = []
+    info = {'tasks': [n for n, _, _ in menu], 'combinations': len(combos), 'schedules': 0, 'steps': 0,
+            'distinct_outcomes_max': 0}
+    for combo, st in res:
+        info['schedules'] += st['schedules']
+        info['steps'] += st['steps']
+        info['distinct_outcomes_max'] = max(info['distinct_outcomes_max'], st['distinct_outcomes'])
+        for sched, ti, got, exp in st['violations'][:3]:
+            names = [menu[i][0] for i in combo]
+            viols.append({'kind': 'lazy-streams-interfere', 'sig': 'victim:' + names[ti].split('(')[0],
+                          'combo': list(combo), 'schedule': list(sched), 'text': ' | '.join(names),
+                          'detail': f'task {ti} ({names[ti]}) yielded {got!r:.160} instead of {exp!r:.160} under schedule {list(sched)}',
+                          'size': len(sched) + 100 * len(combo)})
+    return info, viols
+
+
 def _culprit(h, res):
     """shortest suffix-free explanation: the first operation of the history after which a probe already fails"""
     bad = {tuple(x) for x, r in res if r.get('error') or r.get('diff')}
@@ -337,8 +395,21 @@ def init_race(nthreads, bound, granularity, ref_tokens, max_exec=None, roots=Non
     fn = lexer.__file__
     init_names = None        # every function of lexer.py except the scanning loop and the keyword lookup
 
+    atomic = ('get_tokens', 'is_keyword', 'tokenize')
+
     def is_point(code):
-        return code.co_filename == fn and code.co_name not in ('get_tokens', 'is_keyword', 'tokenize')
+        return code.co_filename == fn and code.co_name not in atomic
+
+    def frame_filter(frame):
+        # nothing that runs on behalf of the scan loop is a scheduling point either (a helper that a change
+        # factors out of get_tokens would otherwise multiply the points by rules x positions)
+        f = frame.f_back
+        while f is not None:
+            if f.f_code.co_filename == fn and f.f_code.co_name in atomic:
+                return False
+            f = f.f_back
+        return True
+    is_point.frame_filter = frame_filter
     outcomes = collections.Counter()
     viols = []
     blocked_seen = [0]
@@ -566,6 +637,9 @@ def run(tier, seed):
         v += v2b
     viols += v
     timing['concurrent_calls'] = round(_t.time() - t0 - sum(timing.values()), 1)
+    linfo, lv = lazy_part(tier)
+    viols += lv
+    timing['lazy_streams'] = round(_t.time() - t0 - sum(timing.values()), 1)
     fc_names = names if tier == 'thorough' else names[:4]
     fc = {}
     for part in core.pmap(lambda n: frame_condition([n]), fc_names):
@@ -573,21 +647,23 @@ def run(tier, seed):
     timing['frame_condition'] = round(_t.time() - t0 - sum(timing.values()), 1)
     for x in viols:
         vc[(x['kind'], x['sig'])] += 1
-    total_exec = sum(s['executions'] for s in race.values()) + cc['executions']
+    total_exec = sum(s['executions'] for s in race.values()) + cc['executions'] + linfo['schedules']
     cov = {
         'states': hinfo['states'] + total_exec, 'transitions': hinfo['transitions'] + sum(s['switch_points_total'] for s in race.values()),
         'traces_validated_against_impl': hinfo['histories'] + hinfo['fixpoint_extra_runs'] + total_exec,
         'samples': [{'history': ['parse-raises', 'reconfigure-and-reset', 'stream-suspended']},
                     {'schedule': 'thread 0 preempted after get_default_instance:53, thread 1 runs until it blocks on the lock'}],
-        'histories': hinfo, 'init_race': race, 'concurrent_calls': cc, 'frame_condition': fc,
+        'histories': hinfo, 'init_race': race, 'concurrent_calls': cc, 'lazy_streams': linfo, 'frame_condition': fc,
         'schedules_explored': total_exec, 'timing_s': timing, 'exhaustive': not any(s['capped'] for s in race.values()),
-        'explanation': 'E6: every history of <= d operations from a 15-operation alphabet (each in a forked child of a warm '
+        'explanation': 'E6: every history of <= d operations from an 18-operation alphabet (each in a forked child of a warm '
                        'parent), plus BFS over the digest-quotient graph of global states to fixpoint; in every state the '
                        'probe suite must return exactly what a fresh interpreter returns. E5: all interleavings of 2-3 real '
                        'threads through lexer creation/initialisation under a cooperative scheduler (scheduling points at '
                        'every line / every opcode of lexer.py outside the scan loop, the lock replaced by a scheduler-aware '
                        'lock) up to the preemption bound; every thread must get the same, completely initialised lexer. '
                        'Concurrent parse/split/format pairs at function-entry granularity, preemption bound 1-2. '
+                       'E8: every interleaving of the next() steps of 2-3 lazily consumed streams (tokenize, get_tokens, '
+                       'parsestream, splitter, filter stack) and complete calls; each must yield what it yields alone. '
                        'states = reachable global-state digests + executions; all model runs execute the implementation.',
     }
     return core.Result('C20', 'model_checking', cov, violations=viols, viol_count=vc, model_errors=model_errors,
@@ -608,5 +684,10 @@ def replay(case):
         bound = sum(1 for c in case['schedule'] if c)
         st, v = init_race(case['threads'], min(bound, 2), case['granularity'], ref_tokens)
         return {'violation': bool(v), 'observed': v[0]['detail'] if v else None}
+    if case['kind'] == 'lazy-streams-interfere':
+        from vlib import gensched, lazytasks
+        m = lazytasks.tasks()
+        st = gensched.explore([m[i][1] for i in case['combo']], [m[i][2] for i in case['combo']])
+        return {'violation': bool(st['violations']), 'observed': repr(st['violations'][:1])[:300]}
     cc, v = concurrent_calls([tuple(case['pair'])], 1, 'call')
     return {'violation': bool(v), 'observed': v[0]['detail'] if v else None}
